@@ -97,9 +97,9 @@ CacheProofs.vos CacheProofs.vok CacheProofs.required_vos: CacheProofs.v Base.vos
 ResolverInv.vo ResolverInv.glob ResolverInv.v.beautified ResolverInv.required_vo: ResolverInv.v Base.vo Fields.vo SrcFacts.vo Msg.vo SrcDecisions.vo Cache.vo CacheSpec.vo CacheProofs.vo Sim.vo SimProofs.vo Prober.vo Resolver.vo ResolverProofs.vo
 ResolverInv.vio: ResolverInv.v Base.vio Fields.vio SrcFacts.vio Msg.vio SrcDecisions.vio Cache.vio CacheSpec.vio CacheProofs.vio Sim.vio SimProofs.vio Prober.vio Resolver.vio ResolverProofs.vio
 ResolverInv.vos ResolverInv.vok ResolverInv.required_vos: ResolverInv.v Base.vos Fields.vos SrcFacts.vos Msg.vos SrcDecisions.vos Cache.vos CacheSpec.vos CacheProofs.vos Sim.vos SimProofs.vos Prober.vos Resolver.vos ResolverProofs.vos
-BrowserInv.vo BrowserInv.glob BrowserInv.v.beautified BrowserInv.required_vo: BrowserInv.v Base.vo Fields.vo SrcFacts.vo Msg.vo SrcDecisions.vo Cache.vo CacheSpec.vo CacheProofs.vo Sim.vo Prober.vo Resolver.vo Browser.vo BrowserProofs.vo
-BrowserInv.vio: BrowserInv.v Base.vio Fields.vio SrcFacts.vio Msg.vio SrcDecisions.vio Cache.vio CacheSpec.vio CacheProofs.vio Sim.vio Prober.vio Resolver.vio Browser.vio BrowserProofs.vio
-BrowserInv.vos BrowserInv.vok BrowserInv.required_vos: BrowserInv.v Base.vos Fields.vos SrcFacts.vos Msg.vos SrcDecisions.vos Cache.vos CacheSpec.vos CacheProofs.vos Sim.vos Prober.vos Resolver.vos Browser.vos BrowserProofs.vos
+BrowserInv.vo BrowserInv.glob BrowserInv.v.beautified BrowserInv.required_vo: BrowserInv.v Base.vo Fields.vo SrcFacts.vo Msg.vo SrcDecisions.vo Cache.vo CacheSpec.vo CacheProofs.vo Sim.vo SimProofs.vo Prober.vo Resolver.vo Browser.vo BrowserProofs.vo
+BrowserInv.vio: BrowserInv.v Base.vio Fields.vio SrcFacts.vio Msg.vio SrcDecisions.vio Cache.vio CacheSpec.vio CacheProofs.vio Sim.vio SimProofs.vio Prober.vio Resolver.vio Browser.vio BrowserProofs.vio
+BrowserInv.vos BrowserInv.vok BrowserInv.required_vos: BrowserInv.v Base.vos Fields.vos SrcFacts.vos Msg.vos SrcDecisions.vos Cache.vos CacheSpec.vos CacheProofs.vos Sim.vos SimProofs.vos Prober.vos Resolver.vos Browser.vos BrowserProofs.vos
 Properties_C05.vo Properties_C05.glob Properties_C05.v.beautified Properties_C05.required_vo: Properties_C05.v Base.vo Fields.vo SrcFacts.vo Msg.vo SrcDecisions.vo Cache.vo CacheSpec.vo CacheProofs.vo
 Properties_C05.vio: Properties_C05.v Base.vio Fields.vio SrcFacts.vio Msg.vio SrcDecisions.vio Cache.vio CacheSpec.vio CacheProofs.vio
 Properties_C05.vos Properties_C05.vok Properties_C05.required_vos: Properties_C05.v Base.vos Fields.vos SrcFacts.vos Msg.vos SrcDecisions.vos Cache.vos CacheSpec.vos CacheProofs.vos
@@ -130,9 +130,9 @@ Properties_C19.vos Properties_C19.vok Properties_C19.required_vos: Properties_C1
 Properties_C15.vo Properties_C15.glob Properties_C15.v.beautified Properties_C15.required_vo: Properties_C15.v Base.vo Fields.vo SrcFacts.vo Msg.vo SrcDecisions.vo Cache.vo Sim.vo Browser.vo BrowserSpec.vo BrowserProofs.vo
 Properties_C15.vio: Properties_C15.v Base.vio Fields.vio SrcFacts.vio Msg.vio SrcDecisions.vio Cache.vio Sim.vio Browser.vio BrowserSpec.vio BrowserProofs.vio
 Properties_C15.vos Properties_C15.vok Properties_C15.required_vos: Properties_C15.v Base.vos Fields.vos SrcFacts.vos Msg.vos SrcDecisions.vos Cache.vos Sim.vos Browser.vos BrowserSpec.vos BrowserProofs.vos
-Properties_C14.vo Properties_C14.glob Properties_C14.v.beautified Properties_C14.required_vo: Properties_C14.v Base.vo Fields.vo SrcFacts.vo Msg.vo SrcDecisions.vo Cache.vo Sim.vo Browser.vo BrowserSpec.vo BrowserProofs.vo
-Properties_C14.vio: Properties_C14.v Base.vio Fields.vio SrcFacts.vio Msg.vio SrcDecisions.vio Cache.vio Sim.vio Browser.vio BrowserSpec.vio BrowserProofs.vio
-Properties_C14.vos Properties_C14.vok Properties_C14.required_vos: Properties_C14.v Base.vos Fields.vos SrcFacts.vos Msg.vos SrcDecisions.vos Cache.vos Sim.vos Browser.vos BrowserSpec.vos BrowserProofs.vos
+Properties_C14.vo Properties_C14.glob Properties_C14.v.beautified Properties_C14.required_vo: Properties_C14.v Base.vo Fields.vo SrcFacts.vo Msg.vo SrcDecisions.vo Cache.vo Sim.vo SimProofs.vo Browser.vo BrowserSpec.vo BrowserProofs.vo BrowserInv.vo
+Properties_C14.vio: Properties_C14.v Base.vio Fields.vio SrcFacts.vio Msg.vio SrcDecisions.vio Cache.vio Sim.vio SimProofs.vio Browser.vio BrowserSpec.vio BrowserProofs.vio BrowserInv.vio
+Properties_C14.vos Properties_C14.vok Properties_C14.required_vos: Properties_C14.v Base.vos Fields.vos SrcFacts.vos Msg.vos SrcDecisions.vos Cache.vos Sim.vos SimProofs.vos Browser.vos BrowserSpec.vos BrowserProofs.vos BrowserInv.vos
 Properties_C13.vo Properties_C13.glob Properties_C13.v.beautified Properties_C13.required_vo: Properties_C13.v Base.vo Fields.vo SrcFacts.vo Msg.vo SrcDecisions.vo Sim.vo Prober.vo Hostname.vo Provider.vo ProviderSpec.vo ProviderProofs.vo
 Properties_C13.vio: Properties_C13.v Base.vio Fields.vio SrcFacts.vio Msg.vio SrcDecisions.vio Sim.vio Prober.vio Hostname.vio Provider.vio ProviderSpec.vio ProviderProofs.vio
 Properties_C13.vos Properties_C13.vok Properties_C13.required_vos: Properties_C13.v Base.vos Fields.vos SrcFacts.vos Msg.vos SrcDecisions.vos Sim.vos Prober.vos Hostname.vos Provider.vos ProviderSpec.vos ProviderProofs.vos
